@@ -417,7 +417,8 @@ def c02_restart_family(tier):
 def c02_content_family(tier):
     out    = []
     tsets  = [['main'], ['a'], ['_h'], ['main', 'a'], ['main', '_h'], ['a', '_h'], ['main', 'a', '_h'],
-              ['ab', 'a'], ['a', 'ab', 'main'], ['main_x', 'main', '_hh', '_h']]       # names that are prefixes of one another
+              ['ab', 'a'], ['a', 'ab', 'main'], ['main_x', 'main', '_hh', '_h'],       # names that are prefixes of one another
+              ['main/sub', 'main'], ['a/b', 'a', 'main']]                               # ... also across the topic delimiter (SUBSCRIBE matches by prefix)
     subs   = ['src', 'src;', 'src;a', 'src;a>b', 'src;>b', 'src;_h', 'src;*', 'src;a;_h>x',
               'src;a>main;main>b', 'src;main>a;a>main']       # a destination that is also a subscribed source name (chain / swap)
     n      = 6
